@@ -174,7 +174,7 @@ def limit_sized(n: int, length: int) -> bool:
 
 def limit_lazy(n: int, length: int, endless: bool, demand: int) -> bool:
     """
-    pre: -1 <= n <= 5 and 0 <= length <= 6 and 0 <= demand <= 8
+    pre: -1 <= n <= 5 and 0 <= length <= H.P('lmax', 6) and 0 <= demand <= 8
     pre: H.fresh(n, length, endless, demand)
     post: _
     """
@@ -785,9 +785,10 @@ def conditions(tier, seed):
             add('limit_sized[%s,%s]' % (how, kind), 'limit_sized', 'N in [-1,5], len in [0,6]; %s via %s' % (kind, how),
                 t, kind=kind, how=how)
         for kind in LAZY_KINDS:
+            lmax = 4 if (q and kind == 'values') else 6
             add('limit_lazy[%s,%s]' % (how, kind), 'limit_lazy',
-                'N in [-1,5], source length in [0,6] or endless, demand in [0,8]; %s via %s' % (kind, how), t,
-                kind=kind, how=how)
+                'N in [-1,5], source length in [0,%d] or endless, demand in [0,8]; %s via %s' % (lmax, kind, how), t,
+                kind=kind, how=how, lmax=lmax)
     for outer in SHAPES:
         for inner in SHAPES:
             if outer == 'frozendict-keys' and inner not in HASHABLE_INNER:
@@ -827,7 +828,7 @@ def conditions(tier, seed):
     add('quota_unit', 'quota_unit', 'Q in [-1,400], counts in [-3,40], stubbed sizes in [0,200], quota as int or engine', t)
     for what in ('str', 'tuple'):
         lo, hi, ml = (-1, 6, 2) if q else (-3, 40, 3)
-        for ln in range(ml + 1):
+        for ln in range(1 if q else 0, ml + 1):
             add('repetition[%s,small,len%d]' % (what, ln), 'repetition',
                 'Q in [-1,400], count in [%d,%d], operand length %d, both orders' % (lo, hi, 4 * ln),
                 150 if q else 900, what=what, rlo=lo, rhi=hi, lenlo=ln, maxlen=ln)
